@@ -34,6 +34,7 @@ import (
 	"fmt"
 	"io"
 	"math/rand/v2"
+	"strings"
 	"testing"
 	"time"
 
@@ -684,6 +685,29 @@ func vf41Child(t *testing.T, specJSON string) {
 		c.Count("encodings_truncated_at_every_position", 1)
 		return len(b)
 	}
+	// retargetSweep: every LEN field of b down to the fields of the parent header, its
+	// declared length re-aimed at every boundary (ends of the enclosing messages and of the
+	// buffer, +-1, in between, empty, huge) while all other bytes stay as they are.
+	retargetSweep := func(b []byte, rng *rand.Rand) int {
+		n := 0
+		for _, f := range vf41.LenFields(b, 3) {
+			inSplit := strings.HasPrefix(f.Path, "3.11.") && f.Depth == 2
+			for _, tg := range vf41.Retargets(b, f) {
+				k.check(vf41.ApplyRetarget(b, f, tg), "len-retargeted", nil, rng)
+				n++
+				c.Seen("len_retarget_aims", tg.Name)
+				c.Count(fmt.Sprintf("len_retargets_at_depth_%d", f.Depth), 1)
+				if inSplit {
+					c.Count("len_retargets_of_split_header_members", 1)
+					if end := f.ValFrom + int(min(tg.Len, 1<<30)); end > f.Ends[0] && end <= len(b) {
+						c.Count("len_retargets_of_split_header_members_overrunning_the_split_header_inside_the_buffer", 1)
+					}
+				}
+			}
+		}
+		c.Count("encodings_with_every_nested_length_retargeted", 1)
+		return n
+	}
 	for i := 0; i < spec.N; {
 		rng := r.Rand(fmt.Sprintf("batch-%d", spec.Batch), i)
 		switch sel := rng.IntN(100); {
@@ -701,6 +725,12 @@ func vf41Child(t *testing.T, specJSON string) {
 			f := vf41Decode(b)
 			k.check(b, "valid", vf41NewRef(b, f, len(b)), rng)
 			i++
+			if h := f.msg.Header; h != nil && h.SessionTokenV2 != nil {
+				c.Count("valid_objects_with_session_token_v2", 1)
+				if h.Split != nil {
+					c.Count("valid_objects_whose_split_header_is_not_the_tail_of_the_header", 1)
+				}
+			}
 			if spec.Batch == 0 && i < 40 {
 				c.Sample(map[string]any{"kind": "valid", "len": len(b), "has_parent_header": f.msg.Header != nil && f.msg.Header.Split != nil && f.msg.Header.Split.ParentHeader != nil, "payload_len": len(f.obj.Payload())})
 			}
@@ -740,6 +770,16 @@ func vf41Child(t *testing.T, specJSON string) {
 			ref.cut = cut
 			k.check(b[:cut], "truncated", ref, rng)
 			i++
+		case sel < 21: // every nested length of a valid encoding re-aimed at every boundary
+			b := pool[rng.IntN(len(pool))]
+			if len(b) > 4000 {
+				b = newValid(rng)
+				if b == nil || len(b) > 4000 {
+					i++
+					continue
+				}
+			}
+			i += max(1, retargetSweep(b, rng))
 		case sel < 85: // mutated valid encoding
 			m, ops := vf41.Mutate(rng, pool[rng.IntN(len(pool))])
 			for _, op := range ops {
@@ -793,10 +833,13 @@ func TestVerif_C41(t *testing.T) {
 	}
 	r := verifkit.Start(t, "C41", "exploration")
 	defer r.Finish()
-	nBatches, perBatch := r.Pick(4, 16), r.Pick(15000, 25000)
-	r.SetRule(fmt.Sprintf("%d child processes x %d inputs: generated valid objects (with/without id, signature, header, payload, split and parent fields, near-maximal headers) as Marshal and as WriteWithoutPayload emit them, their encodings truncated at every position, 1-3 structure-aware (duplicate/swap/extra field, varint and tag rewrite, overlong varint, emptied value, with lengths re-encoded or left stale) or byte-level mutations, random strings; every input goes through ExtractHeaderAndPayload, ReadHeaderPrefix (chunked reader), GetNonPayloadFieldBounds, GetParentNonPayloadFieldBounds(+Header), GetPayloadLengthHeader, GetTypeHeader and is judged against object.Unmarshal of the complete object; distinct = (input kind, fully decodable, canonical, judged against a reference, ok/error pattern of the fast paths)", nBatches, perBatch))
+	nBatches, perBatch := r.Pick(4, 16), r.Pick(30000, 40000)
+	r.SetRule(fmt.Sprintf("%d child processes x %d inputs: generated valid objects (with/without id, signature, header, payload, split and parent fields, near-maximal headers) as Marshal and as WriteWithoutPayload emit them, their encodings truncated at every position, 1-3 structure-aware (duplicate/swap/extra field, varint and tag rewrite, overlong varint, emptied value, with lengths re-encoded or left stale) or byte-level mutations, the declared length of every (nested, down to the members of the parent header) LEN field re-aimed at every boundary of its enclosing messages and of the buffer with all other lengths left as they are (systematic sweeps and as a random mutation step), random strings; every input goes through ExtractHeaderAndPayload, ReadHeaderPrefix (chunked reader), GetNonPayloadFieldBounds, GetParentNonPayloadFieldBounds(+Header), GetPayloadLengthHeader, GetTypeHeader and is judged against object.Unmarshal of the complete object; distinct = (input kind, fully decodable, canonical, judged against a reference, ok/error pattern of the fast paths)", nBatches, perBatch))
 	r.Assume("agreement is demanded for canonical encodings (the bytes the node itself produces) and their prefixes; for byte strings that decode but that no encoder emits (repeated/unordered/unknown fields) only absence of panics and in-range bounds are demanded, the refuse/agree/differ statistics are reported under observed_noncanonical_decodable|*")
 	vf41.RunBatches(t, r, "TestVerif_C41", "wire", nBatches, perBatch, 25*time.Minute)
+	if r.Counter("len_retargets_of_split_header_members_overrunning_the_split_header_inside_the_buffer") == 0 || r.Counter("parent_fields_located_inside_enclosing_split_header") == 0 {
+		r.Inconclusive("no input in which a member of the split header overruns the split header while fitting the buffer, or no located parent field was checked against its enclosing messages")
+	}
 	if r.Counter("agreement_checks_with_parent_fields") == 0 || r.Counter("encodings_truncated_at_every_position") == 0 || r.Counter("inputs_prefix_with_complete_non_payload_part") == 0 || r.Counter("maximal_header_objects") == 0 {
 		r.Inconclusive("no object with parent fields, no full truncation sweep, no payload-prefix input or no maximal-header object was executed")
 	}
